@@ -341,7 +341,7 @@ func c14EndToEnd(c *caseCtx) {
 	if increasing {
 		key = "notSatisfiedThreshold"
 	}
-	checked := 0
+	checked, closing := 0, 0
 	for _, e := range d.View.Result {
 		idxF, ok := e.Evaluation["thresholdsIndex"].(float64)
 		if !ok {
@@ -354,8 +354,32 @@ func c14EndToEnd(c *caseCtx) {
 			return
 		}
 		th, _ := e.Evaluation[key].(map[string]interface{})
+		if !increasing && idx == len(levels) && len(th) > 0 {
+			// an alternative that meets no level of the series is reported with the closing level r = 0: every criterion
+			// at its worst end (min for gain - also when the type is left to the default -, max for cost)
+			for cid, tv := range th {
+				cr, okc := s.crit(cid)
+				t, okt := tv.(float64)
+				if !okc || !okt {
+					c.violate("levels-report", "reported threshold for an unknown criterion "+cid, M{"request": g.M})
+					return
+				}
+				lo, hi := s.rng(cr)
+				worst := lo
+				if cr.Cost {
+					worst = hi
+				}
+				if math.Abs(t-worst) > 1e-9*(1+math.Abs(hi-lo)+math.Abs(lo)) {
+					c.violate("levels-closing", fmt.Sprintf("%s meets no generated level and reports threshold %v for %s; r = 0 measured from the worst end gives %v (range [%v,%v], cost=%v)", e.Alternative.Id, t, cid, worst, lo, hi, cr.Cost),
+						M{"request": g.M, "evaluated_on": s})
+					return
+				}
+				closing++
+			}
+			continue
+		}
 		if idx == len(levels) || len(th) == 0 {
-			continue // leftover / survivor: no level of the series attached
+			continue // survivor: no level of the series attached
 		}
 		for cid, tv := range th {
 			cr, okc := s.crit(cid)
@@ -374,6 +398,7 @@ func c14EndToEnd(c *caseCtx) {
 		}
 	}
 	c.count("reported_thresholds_checked", checked)
+	c.count("closing_level_thresholds_checked", closing)
 	if checked > 0 {
 		c.count("nontrivial", 1)
 		c.distinct(fmt.Sprintf("e2e|%s|%s|%v|%v|%v|%d", method, lv.Fn, lv.Coefficient, lv.MinValue, lv.MaxValue, len(d.Trace.Bias)))
